@@ -177,10 +177,10 @@ pub fn decoded_text(d: &StunDecoded) -> String {
         StunMethod::CreatePermission => "createpermission", StunMethod::ChannelBind => "channelbind", StunMethod::Send => "send", StunMethod::Data => "data" };
     let oa = |a: &Option<SocketAddr>| a.as_ref().map(addr_text).unwrap_or_else(|| "n".into());
     let os = |a: &Option<String>| a.as_ref().map(|s| format!("s{}", hex(s.as_bytes()))).unwrap_or_else(|| "n".into());
-    format!("ok {cls} {m} {} {} {} {} {} {} {} {} {} {}", hex(&d.transaction_id), oa(&d.xor_mapped_address), oa(&d.xor_relayed_address),
+    format!("ok {cls} {m} {} {} {} {} {} {} {} {} {} {} {}", hex(&d.transaction_id), oa(&d.xor_mapped_address), oa(&d.xor_relayed_address),
         oa(&d.xor_peer_address), d.error_code.map(|c| c.to_string()).unwrap_or_else(|| "n".into()), os(&d.realm), os(&d.nonce),
         d.data.as_ref().map(|b| format!("s{}", hex(b))).unwrap_or_else(|| "n".into()), d.use_candidate as u8,
-        d.lifetime.map(|c| c.to_string()).unwrap_or_else(|| "n".into()))
+        d.lifetime.map(|c| c.to_string()).unwrap_or_else(|| "n".into()), d.priority.map(|c| c.to_string()).unwrap_or_else(|| "n".into()))
 }
 
 /// Oracle for rustrtc's encoder output `out` of `s`.
@@ -242,10 +242,11 @@ pub fn oracle_dec(s: &Spec, d: &StunDecoded) -> Vec<(String, String)> {
     if d.transaction_id != s.tx { f("transaction-id", "any".into(), hex(&d.transaction_id)); }
     let fam = |a: &SocketAddr| if a.is_ipv4() { "v4".to_string() } else { "v6".to_string() };
     let (mut xm, mut xp, mut xr, mut re, mut no, mut da, mut lt, mut ec, mut uc) = (None, None, None, None, None, None, None, None, false);
+    let mut pr = None;
     for a in &s.attrs { match a {
         A::Xm(x) => xm = Some(*x), A::Xp(x) => xp = Some(*x), A::Xr(x) => xr = Some(*x), A::Re(x) => re = Some(x.clone()),
         A::No(x) => no = Some(x.clone()), A::Da(x) => da = Some(x.clone()), A::Lt(x) => lt = Some(*x), A::Ec(c, _) => ec = Some(*c), A::EcBits(_, c, n) => ec = Some((*c as u16 & 7) * 100 + *n as u16),
-        A::Uc => uc = true,
+        A::Uc => uc = true, A::Pr(x) => pr = Some(*x),
         A::RawRe(b) => re = String::from_utf8(b.clone()).ok(), A::RawNo(b) => no = String::from_utf8(b.clone()).ok(),
         _ => {} } }
     if d.xor_mapped_address != xm { f("xor-mapped", xm.as_ref().map(fam).unwrap_or("absent".into()), format!("{:?} vs {:?}", d.xor_mapped_address, xm)); }
@@ -256,6 +257,7 @@ pub fn oracle_dec(s: &Spec, d: &StunDecoded) -> Vec<(String, String)> {
     if d.data != da { f("data", format!("len-mod4-{}", da.as_ref().map(|s| s.len() % 4).unwrap_or(9)), "data differs".into()); }
     if d.lifetime != lt { f("lifetime", "u32".into(), format!("{:?} vs {:?}", d.lifetime, lt)); }
     if d.error_code != ec { f("error-code", "class*100+number".into(), format!("{:?} vs {:?}", d.error_code, ec)); }
+    if d.priority != pr { f("priority", "u32".into(), format!("{:?} vs {:?}", d.priority, pr)); }
     if d.use_candidate != uc { f("use-candidate", "flag".into(), format!("{} vs {}", d.use_candidate, uc)); }
     fails
 }
